@@ -326,13 +326,14 @@ ArcOk(ev) ==
            \* the arc is ill-conditioned towards opposite vectors: its error grows like u / sqrt(1 + a.b) (the rotation axis a x b
            \* vanishes); exactly opposite vectors take the documented half turn about an arbitrary axis
            w1(bb) == DyAdd(Dy1, VDot(a, bb))
-           \* nearly parallel vectors (1 - a.b <= 8 u) are snapped to the identity rotation: the image of a is then a itself, |a - b|^2 = 2 (1 - a.b)
+           \* nearly parallel vectors (1 - a.b <= 16 u, the rounding of the lengths included) may be snapped to the identity rotation:
+           \* the image of a is then a itself
            gap(bb) == DySub(Dy1, VDot(a, bb))
-           snapped(d, bb) == DyLe(gap(bb), DyPow2(3 - p)) /\ DyLe(DySq(d), DyAdd(DyScale(DyAbs(gap(bb)), 3), DySq(t)))
-           lane(d, bb) == \/ DyLe(DySq(d), DySq(t))
+           snapped(i, bb) == DyLe(gap(bb), DyPow2(4 - p)) /\ DyNear(img[i], a[i], t)
+           lane(i, d, bb) == \/ DyLe(DySq(d), DySq(t))
                           \/ (DyIsPos(w1(bb)) /\ DyLe(DyMul(DySq(d), w1(bb)), DySq(DyPow2(6 - p))))
-                          \/ snapped(d, bb)
-           hits(bb) == \A i \in 1..3 : lane(DySub(img[i], bb[i]), bb) IN
+                          \/ snapped(i, bb)
+           hits(bb) == \A i \in 1..3 : lane(i, DySub(img[i], bb[i]), bb) IN
        /\ DyNear(VSq(q), Dy1, t)
        /\ IF ev.colinear = 1 THEN hits(b) \/ hits(VNeg(b)) ELSE hits(b)
 
